@@ -53,9 +53,15 @@ func c16Replay(c *lib.Ctx) {
 		obs, keys := c16RunHist(h)
 		fmt.Printf("  history        : %s\n  implementation : %s\n  model          : %s\n", h.text(keys), strings.Join(obs, " "), strings.TrimPrefix(model, "ok "))
 		c16CheckHist(c, h, model)
-	case "type":
-		// the type family is a fixed exhaustive table: re-run it and keep the recorded cell
-		c16TypeFamily(c)
+	case "type", "compound":
+		// the type families are (mostly) fixed exhaustive tables: re-run them and keep the recorded cell
+		if family == "type" {
+			c16TypeFamily(c)
+		} else {
+			c.Seed = c16ReplaySeed(rec)
+			c.Tier, _ = rec["tier"].(string)
+			c16CompoundFamily(c)
+		}
 		var keep []lib.Violation
 		for _, v := range c.Violations {
 			if v.Signature == sig {
@@ -75,4 +81,11 @@ func c16Replay(c *lib.Ctx) {
 	for _, v := range c.Violations {
 		fmt.Printf("  still failing: %s\n", v.Signature)
 	}
+}
+
+func c16ReplaySeed(rec map[string]any) uint64 {
+	if f, ok := rec["seed"].(float64); ok {
+		return uint64(f)
+	}
+	return 1
 }
